@@ -132,6 +132,11 @@ class Layout:
                 s["excl"] = bool(s["group"]) and s["arity"] == "one"
                 # repeatable but not optional: the decoders demand at least one (it is part of min_size)
                 s["min1"] = s["arity"] == "many" and not s["optional"]
+        # byte sizes that are "special" somewhere in the table: every fixed-size byte field (a variable-length
+        # sibling holding exactly that many bytes is the value another representation could also carry), plus
+        # the natural EPC sizes 64/96/128/256 bits
+        self.special_sizes = sorted(set([f["length"] for c in self.all for f in c["fields"] if f["kind"] == "fixedarr"]
+                                        + [8, 12, 16, 32]))
 
     def sub_c(self, s):
         return s["c"]
@@ -483,13 +488,19 @@ class Gen:
             return ['N', rand_num(rnd, self.L.fbits(f))]
         if k == "fixedarr":
             return ['B', rand_bytes(rnd, f["length"])]
-        if k == "string":
-            return ['B', utf8_string(rnd, rnd.randrange(0, max_len + 1))]
-        if k == "rest":
-            return ['B', rand_bytes(rnd, rnd.randrange(0, max_len + 1))]
-        if k == "counted":
-            return ['U', [rand_num(rnd, 8 * f["esize"]) for _ in range(rnd.randrange(0, max_len + 1))]]
+        if k in ("string", "rest", "counted"):
+            n = rnd.choice(self.L.special_sizes) if rnd.random() < 0.15 else rnd.randrange(0, max_len + 1)
+            if k == "string":
+                return ['B', utf8_string(rnd, n)]
+            if k == "rest":
+                return ['B', rand_bytes(rnd, n)]
+            return ['U', [rand_num(rnd, 8 * f["esize"]) for _ in range(n)]]
         if k == "bitarray":
+            r = rnd.random()
+            if r < 0.25:
+                return bit_array(rnd, 8 * rnd.choice(self.L.special_sizes))     # exactly a fixed/natural size
+            if r < 0.35:
+                return bit_array(rnd, 8 * rnd.choice(self.L.special_sizes) + rnd.choice((-1, 1)))
             return bit_array(rnd, rnd.randrange(0, 8 * max_len + 1))
         raise ValueError(k)
 
@@ -564,6 +575,48 @@ class Gen:
             else:
                 ss.append(['L', [self.full_value(sc, rnd, depth - 1, many) for _ in range(max(many, 1))]])
         return ['S', c["cid"], fs, ss]
+
+    def twin(self, xc, yc, yv):
+        """a value of alternative xc that carries the payload (first field) of the value yv of the sibling
+        alternative yc, or None if xc cannot represent it"""
+        L = self.L
+        if not xc["named"] or not yc["named"]:
+            return None
+        fy, fx = yc["named"][0], xc["named"][0]
+        y = yv[2][0]
+        if y[0] == 'N':
+            payload = ('n', y[1], None)
+        elif y[0] == 'B':
+            payload = ('b', y[1], 8 * len(y[1]))
+        elif y[0] == 'A':
+            payload = ('b', y[2], y[1])
+        elif y[0] == 'U' and fy.get("esize") == 1:
+            payload = ('b', bytes(y[1]), 8 * len(y[1]))
+        else:
+            return None
+        x = L.minimal(xc)
+        kx = fx["kind"]
+        if payload[0] == 'n':
+            if kx not in ("num", "bits") or payload[1] >= (1 << L.fbits(fx)) or payload[1] == 0:
+                return None
+            x[2][0] = ['N', payload[1]]
+        else:
+            b, nbits = payload[1], payload[2]
+            if not b:
+                return None
+            if kx == "bitarray":
+                x[2][0] = ['A', nbits, b]
+            elif kx == "fixedarr":
+                if len(b) != fx["length"] or nbits != 8 * len(b):
+                    return None
+                x[2][0] = ['B', b]
+            elif kx in ("rest", "string"):
+                x[2][0] = ['B', b]
+            elif kx == "counted" and fx["esize"] == 1:
+                x[2][0] = ['U', list(b)]
+            else:
+                return None
+        return x
 
     def fix_alts(self, c, v, rnd):
         """after overwriting fields: keep non-chosen alternatives zero and the chosen one non-zero"""
@@ -670,6 +723,34 @@ class Gen:
                     v = copy.deepcopy(base0)
                     v[3][i] = self.rand_value(sc, rnd, 1)
                     add("one-rand:" + s["name"], v)
+            # exclusive groups: for each alternative, values that ANOTHER alternative could represent as well
+            # (same payload carried by the sibling): an encoder or decoder that confuses/"normalises" the
+            # alternatives shows up as a changed value
+            for i, s in enumerate(c["subs"]):
+                if not s["excl"]:
+                    continue
+                for j, s2 in enumerate(c["subs"]):
+                    if j == i or not s2["excl"] or s2["group"] != s["group"]:
+                        continue
+                    donors = [L.make_nonzero(s2["c"], L.minimal(s2["c"])),
+                              L.make_nonzero(s2["c"], self.rand_value(s2["c"], rnd, 1), rnd),
+                              L.make_nonzero(s2["c"], self.rand_value(s2["c"], rnd, 1), rnd),
+                              L.make_nonzero(s2["c"], self.full_value(s2["c"], rnd, 0), rnd)]
+                    for don in donors:
+                        tw = self.twin(s["c"], s2["c"], don)
+                        if tw is None:
+                            continue
+                        for b in (base0, allp):
+                            v = copy.deepcopy(b)
+                            for k2, s3 in enumerate(c["subs"]):
+                                if s3["excl"] and s3["group"] == s["group"]:
+                                    v[3][k2] = L.zero(s3["c"])
+                            v[3][i] = copy.deepcopy(tw)
+                            add("alt-twin:%s-as-%s" % (s2["name"], s["name"]), v)
+                            v = copy.deepcopy(v)
+                            v[3][i] = L.zero(s["c"])
+                            v[3][j] = copy.deepcopy(don)
+                            add("alt-twin-donor:" + s2["name"], v)
             # groups of repeatable types mixed in one decode loop (ROSpec `specs`)
             mixed = {}
             for i, s in enumerate(c["subs"]):
@@ -687,8 +768,9 @@ class Gen:
         # (c) lengths of lists / strings / byte strings / bit arrays
         for i, f in enumerate(c["named"]):
             k = f["kind"]
+            extra = sorted(set(L.special_sizes + [rnd.randrange(0, 41) for _ in range(5)]) - set(LENGTHS))
             if k == "string":
-                for n in LENGTHS + ([1000, 4096] if self.thorough else [1000]):
+                for n in LENGTHS + extra + ([1000, 4096] if self.thorough else [1000]):
                     v = copy.deepcopy(base0)
                     v[2][i] = ['B', utf8_string(rnd, n)]
                     add("strlen:" + f["name"], v)
@@ -700,13 +782,13 @@ class Gen:
                     v[2][i] = ['B', bad]
                     add("str-not-utf8:" + f["name"], v)
             elif k == "rest":
-                for n in LENGTHS + [1000, 4095]:
+                for n in LENGTHS + extra + [1000, 4095]:
                     v = copy.deepcopy(base1)
                     v[2][i] = ['B', rand_bytes(rnd, n)]
                     add("restlen:" + f["name"], v)
             elif k == "counted":
                 w = 8 * f["esize"]
-                for n in LENGTHS + [1000]:
+                for n in LENGTHS + extra + [1000]:
                     v = copy.deepcopy(base0)
                     v[2][i] = ['U', [rand_num(rnd, w) for _ in range(n)]]
                     add("listlen:" + f["name"], v)
@@ -719,7 +801,9 @@ class Gen:
                     v[2][i] = ['U', [x, x ^ 1, x]]
                     add("list-walk:" + f["name"], v)
             elif k == "bitarray":
-                for n in BITCOUNTS + ([4096, 65535] if self.thorough else [4096]):
+                bextra = sorted(set([8 * x for x in L.special_sizes] + [8 * x + d for x in L.special_sizes for d in (-1, 1)]
+                                    + [rnd.randrange(0, 321) for _ in range(5)]) - set(BITCOUNTS))
+                for n in BITCOUNTS + bextra + ([4096, 65535] if self.thorough else [4096]):
                     for padnz in (False, True):
                         if padnz and n % 8 == 0:
                             continue
@@ -738,7 +822,13 @@ class Gen:
             var = [j for j, f in enumerate(sc["named"]) if f["kind"] in ("string", "rest", "counted", "bitarray")]
             if not var:
                 continue
-            for n in (0, 1, 7, 8, 9, 255, 256, 257):
+            grid = [(n, n) for n in sorted(set([0, 1, 7, 8, 9, 255, 256, 257] + L.special_sizes
+                                                 + [rnd.randrange(0, 41) for _ in range(4)]))]
+            if any(sc["named"][j]["kind"] == "bitarray" for j in var):
+                # (bytes for byte fields, bits for bit arrays): the fixed/natural sizes also as whole bytes of bits
+                grid += [(n, 8 * n + d) for n in L.special_sizes for d in (0, -1, 1)]
+                grid += [(n, b) for n, b in ((rnd.randrange(0, 41), rnd.randrange(0, 321)) for _ in range(4))]
+            for n, nb in grid:
                 sv = L.minimal(sc)
                 for j in var:
                     f = sc["named"][j]
@@ -749,7 +839,7 @@ class Gen:
                     elif f["kind"] == "counted":
                         sv[2][j] = ['U', [rand_num(rnd, 8 * f["esize"]) for _ in range(n)]]
                     else:
-                        sv[2][j] = bit_array(rnd, n)
+                        sv[2][j] = bit_array(rnd, nb)
                 if s["excl"] and not L.go_nonzero(sc, sv):
                     continue
                 v = copy.deepcopy(base0)
